@@ -19,11 +19,23 @@ class NextRequest(Request, MutableMapping[str, Any]):
 
 
 def ensure_next(iterable: Iterable[bytes]) -> Iterable[bytes]:
-    first_chunk = iterable.__iter__().__next__()
+    # Pull the first chunk so that the application has called start_response,
+    # then go on with the SAME iterator: iterating a list or tuple body again
+    # would send its first chunk twice.
+    iterator = iter(iterable)
+    try:
+        first_chunk = next(iterator)
+    except StopIteration:
+        first_chunk = b""
 
     def generator():
-        yield first_chunk
-        yield from iterable
+        try:
+            yield first_chunk
+            yield from iterator
+        finally:
+            close = getattr(iterable, "close", None)
+            if close is not None:
+                close()
 
     return generator()
 
